@@ -53,13 +53,20 @@ func runC16(c *Ctx) {
 		ctxP, connP := b.Params[0], b.Params[1]
 		construct := fmt.Sprintf("%s: reverse client is built per connection", fname(b))
 		okAll := true
-		// client object allocated inside
+		// client object allocated inside (the builder or a helper it calls)
 		var clAlloc *ssa.Alloc
-		allInstrs(b, func(in ssa.Instruction) {
+		inB := map[*ssa.Function]bool{}
+		for _, g := range p.cone(b) {
+			inB[g] = true
+		}
+		p.coneInstrs(b, func(in ssa.Instruction) {
 			if al, ok := in.(*ssa.Alloc); ok && al.Type().(*types.Pointer).Elem() == types.Type(r.TClient) && al.Heap {
 				clAlloc = al
 			}
 		})
+		isCl := func(v ssa.Value) bool {
+			return clAlloc != nil && c.allOrigins(v, func(a apath) bool { return a.Root == ssa.Value(clAlloc) && len(a.Fields) == 0 })
+		}
 		if clAlloc == nil {
 			// any use of a client object captured from outside?
 			okAll = false
@@ -68,9 +75,12 @@ func runC16(c *Ctx) {
 		// request queue: result of a call on that client, stored into connP.requests
 		if clAlloc != nil {
 			var qStore *ssa.Store
-			for _, u := range usesOfKind(usesIn(p.uses(r.FRequests), b), "store") {
+			for _, u := range usesOfKind(p.uses(r.FRequests), "store") {
+				if !inB[u.Fn] {
+					continue
+				}
 				qStore = u.At.(*ssa.Store)
-				if u.Base != ssa.Value(connP) {
+				if !c.isParamOrForwarded(u.Base, connP) {
 					okAll = false
 					c.bad("R16.1", construct, c.ipos(u.At), "the request queue is installed on something other than the connection the builder was given")
 				}
@@ -80,10 +90,10 @@ func runC16(c *Ctx) {
 				c.bad("R16.1", construct, p.pos(b.Pos()), "the builder does not install a request queue on the connection: reverse calls are never sent")
 			} else {
 				call, ok := stripConv(qStore.Val).(*ssa.Call)
-				if !ok || len(call.Common().Args) == 0 || call.Common().Args[0] != ssa.Value(clAlloc) {
+				if !ok || len(call.Common().Args) == 0 || !(call.Common().Args[0] == ssa.Value(clAlloc) || isCl(call.Common().Args[0])) {
 					okAll = false
 					c.bad("R16.1", construct, c.ipos(qStore), "the queue installed on the connection is not the one this invocation's client sends on")
-				} else if f := staticCallee(call); f != nil {
+				} else if f := p.unbound(staticCallee(call)); f != nil {
 					// the callee makes the channel per call
 					made := false
 					allInstrs(f, func(x ssa.Instruction) {
@@ -101,9 +111,12 @@ func runC16(c *Ctx) {
 			}
 			// exit signal binding
 			bound := false
-			for _, u := range usesOfKind(usesIn(p.uses(r.FCExiting), b), "store") {
-				if u.Base == ssa.Value(clAlloc) {
-					if base, ok := loadsField(stripConv(u.Val), r.FExiting); ok && base == ssa.Value(connP) {
+			for _, u := range usesOfKind(p.uses(r.FCExiting), "store") {
+				if !inB[u.Fn] {
+					continue
+				}
+				if u.Base == ssa.Value(clAlloc) || isCl(u.Base) {
+					if base, ok := loadsField(stripConv(u.Val), r.FExiting); ok && c.isParamOrForwarded(base, connP) {
 						bound = true
 					}
 				}
@@ -116,7 +129,7 @@ func runC16(c *Ctx) {
 		}
 		// proxy struct allocated inside, provided, and placed into the returned context
 		var wv *ssa.Call
-		allInstrs(b, func(in ssa.Instruction) {
+		p.coneInstrs(b, func(in ssa.Instruction) {
 			if ci, ok := in.(*ssa.Call); ok && calleeName(ci) == "context.WithValue" {
 				wv = ci
 			}
@@ -127,15 +140,15 @@ func runC16(c *Ctx) {
 		} else {
 			val := stripConv(wv.Common().Args[2])
 			al, isAl := val.(*ssa.Alloc)
-			if !isAl || al.Parent() != b {
+			if !isAl || !inB[al.Parent()] {
 				okAll = false
 				c.bad("R16.1", construct, c.ipos(wv), "the proxy placed into the context is not allocated by this invocation of the builder: connections share one proxy")
 			} else if clAlloc != nil {
 				// provided by this client: a call taking clAlloc as receiver whose slice argument contains al
 				provided := false
-				allInstrs(b, func(in ssa.Instruction) {
+				p.coneInstrs(b, func(in ssa.Instruction) {
 					ci, ok := in.(*ssa.Call)
-					if !ok || len(ci.Common().Args) < 2 || ci.Common().Args[0] != ssa.Value(clAlloc) {
+					if !ok || len(ci.Common().Args) < 2 || !(ci.Common().Args[0] == ssa.Value(clAlloc) || isCl(ci.Common().Args[0])) {
 						return
 					}
 					if c.dependsOn(ci.Common().Args[1], func(v ssa.Value) bool { return v == ssa.Value(al) }, 0, map[ssa.Value]bool{}) {
@@ -147,15 +160,18 @@ func runC16(c *Ctx) {
 					c.bad("R16.1", construct, c.ipos(wv), "the proxy placed into the context was not filled in by this invocation's client")
 				}
 			}
-			if wv.Common().Args[0] != ssa.Value(ctxP) && !c.ctxDerives(wv.Common().Args[0], func(v ssa.Value) bool { return v == ssa.Value(ctxP) }, 0, map[ssa.Value]bool{}) {
+			isCtxP := func(v ssa.Value) bool { return c.isParamOrForwarded(v, ctxP) }
+			if !isCtxP(wv.Common().Args[0]) && !c.ctxDerives(wv.Common().Args[0], isCtxP, 0, map[ssa.Value]bool{}) {
 				okAll = false
 				c.bad("R16.1", construct, c.ipos(wv), "the returned context does not derive from the context the builder was given")
 			}
 			// returned on the success path
 			retOK := false
 			allInstrs(b, func(in ssa.Instruction) {
-				if rt, ok := in.(*ssa.Return); ok && len(rt.Results) == 2 && rt.Results[0] == ssa.Value(wv) {
-					retOK = true
+				if rt, ok := in.(*ssa.Return); ok && len(rt.Results) == 2 {
+					if rt.Results[0] == ssa.Value(wv) || c.someOrigin(rt.Results[0], func(a apath) bool { return a.Root == ssa.Value(wv) && len(a.Fields) == 0 }) {
+						retOK = true
+					}
 				}
 			})
 			if !retOK {
